@@ -23,7 +23,7 @@ RULE = ("generated standard queries (with and without filters, negative indices,
 TRUSTED = ["Lean 4.33 kernel; standard axioms only", "models tied to selectors.py/match.py/pointer.py by this differential run"]
 ASSUMPTIONS = ["documents are trees (no aliasing)", "keys selector excluded, `$`-rooted queries only (as the property states)"]
 
-DANGER = ["'", '"', "\\", "/", "~", " ", "\x00", "\x1f", "\x7f", "é", "😀", "0", "-", "+"]
+DANGER = ["'", '"', "\\", "/", "~", " ", "\x00", "\x1f", "\x7f", "é", "😀", "0", "-", "+", "1", "\u0662", "\uff11"]
 
 _NP = re.compile(r"""\$(?:\[(?:0|[1-9][0-9]*)\]|\['(?:[^\x00-\x1f'\\]|\\[bfnrt'\\]|\\u00(?:0[0-7bef]|1[0-9a-f]))*'\])*\Z""")
 
